@@ -193,6 +193,8 @@ pub struct State {
     pub cur: Option<usize>,
     pub files: BTreeMap<String, Bytes>,
     pub use_etag: bool,
+    /// The server honours If-Modified-Since although it sends no Last-Modified itself.
+    pub ims_silently: bool,
     pub use_last_modified: bool,
     /// Number of deltas kept in the notification file.
     pub retain: usize,
@@ -209,7 +211,7 @@ const MTIME_BASE: i64 = 1_700_000_000;
 impl State {
     fn new(host: String, seed: u64) -> Self {
         State {
-            host, versions: Vec::new(), cur: None, files: BTreeMap::new(), use_etag: true, use_last_modified: true,
+            host, versions: Vec::new(), cur: None, files: BTreeMap::new(), use_etag: true, ims_silently: false, use_last_modified: true,
             retain: 100, faults: FaultPlan::default(), log: Vec::new(), session_counter: 0, seed,
             cache: Default::default(),
         }
@@ -466,7 +468,7 @@ impl State {
                             }
                             let not_modified = match inm {
                                 Some(tag) if self.use_etag => tag == etag.as_bytes(),
-                                _ => match ims { Some(t) if self.use_last_modified => t >= mtime, _ => false },
+                                _ => match ims { Some(t) if self.use_last_modified || self.ims_silently => t >= mtime, _ => false },
                             };
                             if not_modified { HttpReply { status: 304, headers, body: Vec::new() } }
                             else { HttpReply { status: 200, headers, body } }
@@ -571,7 +573,7 @@ impl RrdpServer {
     pub fn reset(&self) {
         self.with(|s| {
             s.versions.clear(); s.cur = None; s.files.clear(); s.cache.borrow_mut().clear(); s.faults = FaultPlan::default(); s.log.clear();
-            s.use_etag = true; s.use_last_modified = true; s.retain = 100;
+            s.use_etag = true; s.use_last_modified = true; s.ims_silently = false; s.retain = 100;
         })
     }
 
@@ -629,7 +631,12 @@ impl RrdpServer {
     pub fn clear_faults(&self) { self.set_faults(FaultPlan::default()) }
 
     pub fn set_validators(&self, etag: bool, last_modified: bool) {
-        self.with(|s| { s.use_etag = etag; s.use_last_modified = last_modified })
+        self.with(|s| { s.use_etag = etag; s.use_last_modified = last_modified; s.ims_silently = false })
+    }
+
+    /// No validators are sent, If-Modified-Since is honoured all the same.
+    pub fn set_ims_silently(&self) {
+        self.with(|s| { s.use_etag = false; s.use_last_modified = false; s.ims_silently = true })
     }
 
     /// Serves `bytes` at `https://<host><path>` (e.g. a trust anchor certificate).
